@@ -6,6 +6,7 @@ import (
 	"go/token"
 	"go/types"
 	"os"
+	"strconv"
 	"strings"
 
 	"golang.org/x/tools/go/types/typeutil"
@@ -29,7 +30,8 @@ import (
 // Anything less clear-cut (definition changed too) is left alone: the rules then see the code as it is.
 type VocabEntry struct {
 	N string `json:"n"`
-	S string `json:"s"`
+	S string `json:"s,omitempty"`
+	F string `json:"f,omitempty"` // loop form the local had: "rv" range value variable, "ix" X[i] local of an index loop
 }
 type VocabSnapshot map[string][]VocabEntry // function -> locals in declaration order
 
@@ -52,7 +54,7 @@ func SnapshotOf(info *types.Info, recv *ast.FieldList, ft *ast.FuncType, body *a
 		if l.Name == "_" {
 			continue
 		}
-		out = append(out, VocabEntry{l.Name, l.Sig})
+		out = append(out, VocabEntry{N: l.Name, S: l.Sig, F: l.Form})
 	}
 	return out
 }
@@ -167,6 +169,72 @@ func (w *World) aliasesFor(fn string, info *types.Info, recv *ast.FieldList, ft 
 	for ci, l := range cur {
 		if !cUsed[ci] {
 			alias[l.Obj] = flow.LocalAlias{Name: l.Name, Ord: 0}
+		}
+	}
+	// loop forms (see flow.LocalAlias): print loop elements the way the form the tables were written for printed them
+	{
+		printed := func(si int) string {
+			if ord[si] > 1 {
+				return snap[si].N + "_" + strconv.Itoa(ord[si])
+			}
+			return snap[si].N
+		}
+		tail := func(sig string) (kind, text string) {
+			i := strings.Index(sig, " | ")
+			if i < 0 {
+				return "", ""
+			}
+			rest := sig[i+3:]
+			switch {
+			case strings.HasPrefix(rest, "range key of ") && !strings.Contains(rest, " ; "):
+				return "k", strings.TrimPrefix(rest, "range key of ")
+			case strings.HasPrefix(rest, "range value of ") && !strings.Contains(rest, " ; "):
+				return "v", strings.TrimPrefix(rest, "range value of ")
+			}
+			return "", ""
+		}
+		sKey, sVal := map[string][]int{}, map[string][]int{}
+		for si, e := range snap {
+			switch k, t := tail(e.S); k {
+			case "k":
+				sKey[t] = append(sKey[t], si)
+			case "v":
+				sVal[t] = append(sVal[t], si)
+			}
+		}
+		matchedTo := map[types.Object]int{}
+		for ci, l := range cur {
+			if a, ok := alias[l.Obj]; ok && cUsed[ci] {
+				for si := range snap {
+					if snap[si].N == a.Name && ord[si] == a.Ord {
+						matchedTo[l.Obj] = si
+					}
+				}
+			}
+		}
+		for _, l := range cur {
+			a := alias[l.Obj]
+			switch k, t := tail(l.Sig); k {
+			case "k":
+				// the tables knew a range value variable over this collection: X[i] is that variable
+				if vs := sVal[t]; len(vs) == 1 && snap[vs[0]].F == "rv" {
+					a.ElemName = printed(vs[0])
+					alias[l.Obj] = a
+				}
+			case "v":
+				if l.Form != "rv" {
+					continue
+				}
+				si, matched := matchedTo[l.Obj]
+				if matched && snap[si].F != "ix" {
+					continue
+				}
+				// the tables knew an index loop over this collection: the value variable is X[i]
+				if ks := sKey[t]; len(ks) == 1 {
+					a.IndexAs = printed(ks[0])
+					alias[l.Obj] = a
+				}
+			}
 		}
 	}
 	// reserve the snapshot's ordinals: an unmatched local must not take the ordinal of a snapshot local that merely
